@@ -119,6 +119,14 @@ func (vm *VM) PopCallFrame() {
 	}
 }
 
+// UnwindCallStack - drop the call frames above `depth`: the frames of calls that
+// were abandoned by an exception which has now been handled.
+func (vm *VM) UnwindCallStack(depth int) {
+	for vm.csCount > depth && vm.csCount > 0 {
+		vm.PopCallFrame()
+	}
+}
+
 func (vm *VM) GetCallStack() []*CallFrame {
 	return vm.callStack[:vm.csCount]
 }
